@@ -1,1 +1,9 @@
-import Cstl.Mem.Model
+import Cstl.Mem.PropsC05
+import Cstl.Mem.PropsC20
+import Cstl.Mem.PropsC14
+/-
+Property theorems of the mem area (smart pointers and array views):
+  C05  Cstl/Mem/PropsC05.lean
+  C20  Cstl/Mem/PropsC20.lean
+  C14  Cstl/Mem/PropsC14.lean
+-/
